@@ -6,6 +6,7 @@ import Mathlib.Tactic.FinCases
 import Mathlib.Tactic.NormNum
 import Mathlib.Algebra.BigOperators.Field
 import PyGam.Gen.Tables
+import PyGam.Gen.Formulas
 /-!
 # C08 — reported model statistics equal their documented definitions at the fit
 
@@ -439,5 +440,60 @@ theorem gen_gamma : Gen.gcvGamma = some (Stats.gammaDefault (α := ℚ)) ∧ Gen
   constructor
   · decide +kernel
   · decide
+
+/-! ### tie to the source by translation of the formulas (`gen_formula_*`)
+
+`Gen/Formulas.lean` is regenerated on every run from the abstract syntax tree of `pygam/pygam.py`:
+`GAM._estimate_AIC`, `_estimate_AICc`, `_estimate_r2`, `_estimate_GCV_UBRE`, with the reads of `self.statistics_`,
+`self.distribution.scale / _known_scale` as parameters and the calls `self._loglikelihood`, `self.distribution.deviance`,
+`self.link.mu`, `self._linear_predictor` as function (vector) parameters; `.sum()` ↦ `sumTo n`, `y.shape[0]` ↦ `natTo n`,
+`y.mean()` ↦ `sumTo n y / natTo n`.  Argument guards (`if gamma < 1: raise`) and argument defaulting
+(`if weights is None: …`) are not part of the translation.  The theorems state that the generated definitions ARE the
+formulas of `Model/Stats.lean`. -/
+section gen_formulas
+set_option linter.unusedSectionVars false
+
+section generic
+variable {α : Type} [Zero α] [One α] [Add α] [Sub α] [Mul α] [Div α] [Neg α] [LE α] [LT α] [DecidableLE α] [DecidableLT α]
+  [HasLogSqrt α]
+
+/-- `_estimate_AICc` is `aicc` (by `rfl`, for every type with the notation classes) -/
+theorem gen_formula_AICc (aicV edof : α) (n : Nat) (y mu w : Nat → α) :
+    Gen.estimate_AICc aicV edof n y mu w = aicc aicV edof n := rfl
+
+/-- `_estimate_GCV_UBRE` is `gcvUbre` applied to the *unscaled* total deviance at `mu = link.mu(lp)`: UBRE with the
+known scale, GCV otherwise, the other one `None` (by `rfl` in each of the four cases of the two Booleans, for every type
+with the notation classes) -/
+theorem gen_formula_GCV_UBRE (fam : Family) (levels scale edof gamma : α) (linv : α → α) (known addScale : Bool) (n : Nat)
+    (w y lp : Nat → α) :
+    Gen.estimate_GCV_UBRE linv (fun y mu w scaled => deviance fam levels scale scaled w y mu) known scale edof lp n y gamma
+        addScale w
+      = gcvUbre known gamma addScale n (totalDeviance fam levels scale false n w y (fun i => linv (lp i))) edof scale := by
+  cases known <;> cases addScale <;> rfl
+end generic
+
+section field
+variable {α : Type} [Field α] [LinearOrder α] [IsStrictOrderedRing α] [HasLogSqrt α]
+
+/-- `_estimate_AIC` is `aic` with `estimated = not known_scale`.  Up to field identities: the source writes
+`-2 * ll + … + 2 * estimated_scale` (a Boolean times 2), the model `(0 - 2 ll) + … + (if estimated then 2 else 0)` -/
+theorem gen_formula_AIC (loglik : (Nat → α) → (Nat → α) → (Nat → α) → α) (known : Bool) (edof : α) (n : Nat)
+    (y mu w : Nat → α) :
+    Gen.estimate_AIC loglik known edof n y mu w = aic (loglik y mu w) edof (!known) := by
+  unfold Gen.estimate_AIC aic two
+  cases known <;> simp <;> ring
+
+/-- `_estimate_r2` returns (explained deviance, McFadden, adjusted McFadden) of the model, the null model being the
+constant `y.mean()`.  Up to the field identity `x * 1 = x` (the source multiplies the mean by `np.ones_like(y)`) -/
+theorem gen_formula_r2 (fam : Family) (levels scale edof : α) (loglik : (Nat → α) → (Nat → α) → (Nat → α) → α) (n : Nat)
+    (w y mu : Nat → α) :
+    Gen.estimate_r2 (fun y mu w scaled => deviance fam levels scale scaled w y mu) loglik edof n y mu w
+      = (r2Explained fam levels scale n w y mu,
+         mcFadden (loglik y mu w) (loglik y (fun _ => meanOf n y) w),
+         mcFaddenAdj (loglik y mu w) (loglik y (fun _ => meanOf n y) w) edof) := by
+  simp only [Gen.estimate_r2, r2Explained, explainedDeviance, totalDeviance, mcFadden, mcFaddenAdj, meanOf, mul_one]
+end field
+
+end gen_formulas
 
 end PyGam.C08
